@@ -1,6 +1,13 @@
 """Per-property configuration of tools/check.py."""
 
 PROPS = {
+    "C18": {
+        "modules": ["BioSeq.Props.C18"],
+        "rule": "serde op lines: owned sequences of 7 codecs from every production route (parsed, copied from offset slices, reversed, truncated (spare capacity), "
+                "drained, cleared, random edit histories) and k-mers of every fitting K (sampled in quick) x usize/u64/u128: real bincode and serde_json round trips "
+                "(equal, same length/content/hash events/display) and serde_json's order/head/bits/data fields compared with the model's ser; distinct = distinct line",
+        "trusted": ["bincode 1.3 and serde_json 1 assumed lossless on the serde data model (third party, not modelled)"],
+    },
     "C09": {
         "modules": ["BioSeq.Props.C09"],
         "rule": "k-mer operation op lines: rotated_left/right (counts 0,1,2,3,7,65535,65536,65537,2^32-1,K,2K,random), pushl/pushr (every symbol for small alphabets), "
